@@ -130,6 +130,19 @@ def site_add_readback(u, plan, reg):
     return e, ("fn", "read"), n
 
 
+def site_add_fresh_read(u, plan, reg):
+    n = plan.call(int)  # created on another line than the one registering it
+    e = cap(); reg.add(n, make_store(u, "read"))  # noqa: E702  (value already stored: the call is pruned, only the read remains)
+    return e, ("fn", "read"), n
+
+
+def site_add_fresh_read_dep(u, plan, reg):
+    n = nest(1, lambda: plan.call(int))  # created in another helper, too
+    e = cap(); reg.add(n, make_store(u, "read"))  # noqa: E702
+    m = plan.call(abs, n)
+    return e, ("fn", "read"), m
+
+
 def site_source_read(u, plan, reg):
     e = cap(); n = reg.source(plan, make_store(u, "read"))  # noqa: E702
     return e, ("fn", "read"), n
@@ -158,6 +171,8 @@ SITES = {
     "plan.unpack": (site_unpack, False),
     "registry.add (write fails)": (site_add_write, True),
     "registry.add (read-back fails)": (site_add_readback, True),
+    "registry.add (already stored, read fails)": (site_add_fresh_read, True),
+    "registry.add (already stored, read for a dependent fails)": (site_add_fresh_read_dep, True),
     "registry.source (read fails)": (site_source_read, True),
     "modified-time query of a source fails": (site_source_mtime, True),
     "modified-time query of an added node fails": (site_add_mtime, True),
@@ -308,7 +323,7 @@ def run(tier):
         "evaluations": len(cases) + len(oc),
         "distinct_nontrivial": len({(c[0], c[1]) for c in cases}) + len(DEPTHS),
         "real_stack_depths_seen": sorted(depths_seen),
-        "rule": ("kind of symbolic call (plan.call, explicit gather, implicit gather, unpack, registry.add write / read-back, registry.source read, modified-time query of a source / added node, "
+        "rule": ("kind of symbolic call (plan.call, explicit gather, implicit gather, unpack, registry.add write / read-back / read of an already stored value, registry.source read, modified-time query of a source / added node, "
                  "source without registry, run's output gather) x helper nesting depth 0..6 on a raw thread (real stack of 2..8 frames; limit is 4 frames + marker) x 1-2 workers; "
                  "distinct = (kind, depth)"),
         "samples": [{"kind": cases[0][0], "depth": 3, "expected_innermost": "site_call at the line holding both cap() and plan.call()"}],
